@@ -542,9 +542,14 @@ def direct_elements(els):
         rows = read_nff(el.symbol)
         wins = disorder_windows(rows)
         tab = el.xray.sftable
-        E = [float(x) for x in tab[0]]
+        # the nodes are those of the file as read here, not of the table the library built from it
+        # (rows whose f1 is the -9999 placeholder still carry an f2)
+        E = sorted(set(float(r[0]) * 0.001 for r in rows))
         n = len(E)
-        js = sorted(set([0, n - 2] + rng.sample(range(n - 1), min(n - 1, 12)) + edges_of(tab)[:6]))
+        if len(tab[0]) != len(rows):
+            fail("C05:table-rows:%s" % el.symbol, "%s.xray.sftable has %d rows, %s.nff has %d data rows" % (el.symbol, len(tab[0]), el.symbol.lower(), len(rows)),
+                 input=dict(element=el.symbol))
+        js = sorted(set([0, 1, 2, n - 2] + rng.sample(range(n - 1), min(n - 1, 12)) + [j for j in edges_of(tab)[:6] if j < n - 1]))
         xs = []
         for j in js:
             xs += [E[j], (E[j] + E[j + 1]) / 2, E[j] + 0.25 * (E[j + 1] - E[j])]
@@ -581,7 +586,7 @@ def direct_elements(els):
             a = sf_scalar(el, energy=x)
             b = sf_scalar(el, wavelength=HC / x)
             for col in (0, 1):
-                scale = abs(float(tab[col + 1][j])) + abs(float(tab[col + 1][j + 1]))
+                scale = hand_interp(rows, col + 1, x)[1]
                 if not close(a[col], b[col], 0.0 if math.isnan(scale) else scale, rel=1e-9):
                     fail("C05:energy-wavelength:%s@%r" % (el.symbol, x),
                          "%s.xray.scattering_factors: energy=%r gives %r, wavelength=%r (= 12.398419/E) gives %r"
